@@ -577,9 +577,21 @@ impl Check for C10 {
         let la = match g.below(8) {
             0 => 0,
             1 => 1,
+            // longer genomes (word / block boundaries, arbitrary thresholds): rare, the cost grows with the length
+            2 if g.chance(1, 25) => {
+                if g.coin() {
+                    *g.pick(&[31usize, 32, 33, 63, 64, 65, 127, 128, 129, 255, 256, 257, 1023, 1024, 1025])
+                } else {
+                    g.log_uniform(9, 20_000)
+                }
+            }
             _ => g.urange(0, 8),
         };
-        let lb = if g.chance(1, 6) { g.urange(0, 8) } else { la };
+        let lb = if g.chance(1, 6) {
+            if la > 8 && g.coin() { la + 1 - 2 * g.urange(0, 1) } else { g.urange(0, 8) }
+        } else {
+            la
+        };
         let random_bits = if g.coin() { Some(g.next_u64()) } else { None };
         Sc::Xo { kind, container, la, lb, rng: RngSpec::swarm(g), random_bits }
     }
